@@ -600,14 +600,20 @@ class Pyd:
             if not ok_default:
                 cs.append(z3.Not(absent) if f.has_default else T(True))  # required+absent is not accepted anyway
         # at abstract positions the selected class must carry a __typename Literal that contains the runtime type
-        if vi is not None and getattr(node, "expect", None) is not None and is_abstract_type(get_named_type(node.expect)):
-            f = by_key.get("__typename")
-            lits = None
-            if f is not None:
+        # (the response key of the __typename selection may be an alias)
+        if vi is not None and getattr(node, "expect", None) is not None and is_abstract_type(get_named_type(node.expect)) and node.variants is not None:
+            tn_keys = [k for k, ent in node.variants[vi].items() if ent[4] == "__typename"]
+            ok = False
+            for k in tn_keys or ["__typename"]:
+                f = by_key.get(k)
+                if f is None:
+                    continue
                 a = self.norm(f.ann)
                 if isinstance(a, ast.Subscript) and ast.unparse(a.value) == "Literal":
                     lits = [ast.literal_eval(e) for e in self.elts(a.slice)]
-            cs.append(T(lits is not None and node.poss[vi].name in lits))
+                    if node.poss[vi].name in lits:
+                        ok = True
+            cs.append(T(ok))
         return And(cs)
 
 
